@@ -1,4 +1,209 @@
+(* C04/Properties.v — the property theorems only.  Each is closed by [exact] of a lemma from
+   Proofs.v and followed by Print Assumptions.
+
+   H   : HMAC-SHA256 under the BNG's secret, an arbitrary function argument
+   e   : environment of a run (H, cookie lifetime, wall clock, subscriber-group matcher)
+   Repaired / Defective : model variants; Repaired has the two repairs of fixes/C04_*.patch,
+   Defective is the code as found. *)
 From Coq Require Import List ZArith NArith Bool Lia Arith.
+From stdpp Require Import gmap nmap.
 From OV Require Import C04.Model C04.Proofs.
-Theorem C04_placeholder : True. Proof. exact I. Qed.
-Print Assumptions C04_placeholder.
+Import ListNotations.
+Local Open Scope N_scope.
+
+(* ---------------------------------------------------------------- cookie *)
+(* Generate and Validate lay the MACed message out identically *)
+Theorem C04_enc_agree : forall mac sv cv ts, enc_val mac sv cv (put32 ts) = enc_gen mac sv cv ts.
+Proof. exact enc_agree. Qed.
+Print Assumptions C04_enc_agree.
+
+(* the MACed message determines MAC (of any length), both VLAN tags and the timestamp *)
+Theorem C04_enc_injective : forall m1 s1 c1 t1 m2 s2 c2 t2,
+  s1 < 65536 -> c1 < 65536 -> t1 < two32 -> s2 < 65536 -> c2 < 65536 -> t2 < two32 ->
+  enc_gen m1 s1 c1 t1 = enc_gen m2 s2 c2 t2 -> m1 = m2 /\ s1 = s2 /\ c1 = c2 /\ t1 = t2.
+Proof. exact enc_gen_injective. Qed.
+Print Assumptions C04_enc_injective.
+
+(* a cookie generated at second now_s verifies for its own tuple exactly while it is younger
+   than the lifetime (timestamps are u32 seconds) *)
+Theorem C04_cookie_roundtrip : forall H ttl now_ns now_s t, (forall d, length (H d) = 32%nat) ->
+  validate H ttl now_ns (generate H now_s t) t = true <->
+  (now_ns - Z.of_N (now_s mod two32) * ns_per_s <= ttl)%Z.
+Proof. exact cookie_roundtrip. Qed.
+Print Assumptions C04_cookie_roundtrip.
+
+(* soundness under H_mac_unforgeable (first premise): an accepted cookie is one this BNG issued
+   for the same MAC and VLAN tags, and it is within its lifetime *)
+Theorem C04_cookie_sound : forall H ttl now c t issued,
+  (forall d, firstn 32 c = H d -> In d (map enc_issue issued)) ->
+  Forall wf_issue issued -> wf_tuple t ->
+  validate H ttl now c t = true ->
+  exists ts, In (t, ts) issued /\ (now - Z.of_N ts * ns_per_s <= ttl)%Z /\ skipn 32 c = put32 ts.
+Proof. exact cookie_sound. Qed.
+Print Assumptions C04_cookie_sound.
+
+Example C04_cookie_sound_nonvacuous :
+  let c := generate oneH 1000 tA in
+  (forall d, firstn 32 c = oneH d -> In d (map enc_issue [(tA, 1000)])) /\
+  Forall wf_issue [(tA, 1000)] /\ wf_tuple tA /\
+  validate oneH 60000000000 1000500000000 c tA = true /\
+  validate oneH 60000000000 1061500000000 c tA = false /\
+  validate oneH 60000000000 1000500000000 c tB = false.
+Proof. exact cookie_sound_nonvacuous. Qed.
+Print Assumptions C04_cookie_sound_nonvacuous.
+
+(* wrong length (all 36 truncations, any extension) is rejected, whatever H is *)
+Theorem C04_cookie_wrong_length : forall H ttl now c t, validate H ttl now c t = true -> length c = 36%nat.
+Proof. exact validate_length. Qed.
+Print Assumptions C04_cookie_wrong_length.
+
+(* an expired timestamp is rejected before the HMAC is even looked at *)
+Theorem C04_cookie_expired : forall H ttl now c mac sv cv a b c4 d, skipn 32 c = [a; b; c4; d] ->
+  (ttl < now - Z.of_N (be32 a b c4 d) * ns_per_s)%Z -> validate H ttl now c (mac, sv, cv) = false.
+Proof. exact validate_expired. Qed.
+Print Assumptions C04_cookie_expired.
+
+(* ---------------------------------------------------------------- tags *)
+Theorem C04_parse_tags_terminates : forall p, parse_tags p <> OutOfFuel /\ parse_tags p <> Base.Panic.
+Proof. exact parse_tags_terminates. Qed.
+Print Assumptions C04_parse_tags_terminates.
+
+(* PADI -> PADO cookie -> PADR by the same tuple within the lifetime is admitted *)
+Theorem C04_padi_padr_roundtrip : forall v e s t s' c, (forall d, length (e_H e d) = 32%nat) ->
+  step v e s (PADI t) = Some (s', OPado c) ->
+  (e_now_ns e - Z.of_N (e_now_s e mod two32) * ns_per_s <= e_ttl e)%Z ->
+  exists tg, parse_tags (add_tag TagACCookie c) = Ok tg /\
+    validate (e_H e) (e_ttl e) (e_now_ns e) (t_cookie tg) t = true.
+Proof. exact padi_padr_roundtrip. Qed.
+Print Assumptions C04_padi_padr_roundtrip.
+
+(* ---------------------------------------------------------------- admission *)
+(* a PADS / a new session only for a PADR whose AC-Cookie validates for the sender's tuple
+   (every variant, i.e. also the code as found) *)
+Theorem C04_padr_needs_cookie : forall v e s t p s' sid uid,
+  step v e s (PADR t p) = Some (s', OPads sid uid) ->
+  exists tg, parse_tags p = Ok tg /\
+    validate (e_H e) (e_ttl e) (e_now_ns e) (t_cookie tg) t = true /\ e_grp e t = true.
+Proof. exact padr_needs_cookie. Qed.
+Print Assumptions C04_padr_needs_cookie.
+
+(* ... and a PADR without such a cookie changes nothing at all *)
+Theorem C04_padr_rejected_no_state : forall v e s t p s' r, step v e s (PADR t p) = Some (s', r) ->
+  (forall tg, parse_tags p = Ok tg -> validate (e_H e) (e_ttl e) (e_now_ns e) (t_cookie tg) t = false) ->
+  s' = s /\ r = ONone.
+Proof. exact padr_rejected_no_state. Qed.
+Print Assumptions C04_padr_rejected_no_state.
+
+(* composite: a session is created only for a cookie this BNG issued, within its lifetime, for
+   the same MAC address and VLAN tags *)
+Theorem C04_admission : forall v e s t p s' sid uid issued,
+  (forall c d, firstn 32 c = e_H e d -> In d (map enc_issue issued)) ->
+  Forall wf_issue issued -> wf_tuple t ->
+  step v e s (PADR t p) = Some (s', OPads sid uid) ->
+  exists ts, In (t, ts) issued /\ (e_now_ns e - Z.of_N ts * ns_per_s <= e_ttl e)%Z.
+Proof. exact admission. Qed.
+Print Assumptions C04_admission.
+
+(* every session object that becomes live comes from an answered PADR or from a restore *)
+Theorem C04_sessions_only_from_padr : forall v e s o s' r x, step v e s o = Some (s', r) -> live s' x ->
+  live s x \/ (exists p, o = PADR (s_tup x) p /\ r = OPads (s_sid x) (s_uid x)) \/ o = RESTORE (s_sid x) (s_tup x).
+Proof. exact step_new_live. Qed.
+Print Assumptions C04_sessions_only_from_padr.
+
+(* ---------------------------------------------------------------- session ids *)
+(* after any history (any packets, restores of fresh non-zero ids, any counter position, any
+   number of long-lived sessions, across the 16-bit wrap) live sessions have pairwise
+   distinct, non-zero ids *)
+Theorem C04_sid_distinct_nonzero : forall e ops s outs x y,
+  run Repaired e st0 ops = Some (s, outs) -> live s x -> live s y ->
+  0 < s_sid x < 65536 /\ (s_sid x = s_sid y -> x = y).
+Proof. exact sid_distinct_nonzero. Qed.
+Print Assumptions C04_sid_distinct_nonzero.
+
+(* the invariant behind it is inductive from any table that satisfies it *)
+Theorem C04_table_invariant : forall e s o s' r, Inv s -> step Repaired e s o = Some (s', r) -> Inv s'.
+Proof. exact step_Inv. Qed.
+Print Assumptions C04_table_invariant.
+
+(* not by never allocating: while one of the 65535 ids is free a valid PADR gets a free,
+   non-zero one, wherever the counter stands (the scan never runs out of fuel) *)
+Theorem C04_sid_alloc_complete : forall e s t p tg, Inv s -> parse_tags p = Ok tg ->
+  validate (e_H e) (e_ttl e) (e_now_ns e) (t_cookie tg) t = true -> e_grp e t = true ->
+  (exists j, 0 < j < 65536 /\ by_sid s !! j = None) ->
+  exists s' sid, step Repaired e s (PADR t p) = Some (s', OPads sid (ctr s)) /\ 0 < sid < 65536 /\
+    by_sid s !! sid = None /\ by_sid s' !! sid = Some {| s_uid := ctr s; s_sid := sid; s_tup := t |}.
+Proof. exact padr_creates_when_room. Qed.
+Print Assumptions C04_sid_alloc_complete.
+
+(* id space full: no session, indexes untouched (repaired) *)
+Theorem C04_sid_full : forall e s t p s' r, Inv s -> (forall j, 0 < j < 65536 -> by_sid s !! j <> None) ->
+  step Repaired e s (PADR t p) = Some (s', r) -> r = ONone /\ by_sid s' = by_sid s /\ by_tup s' = by_tup s.
+Proof. exact padr_full_repaired. Qed.
+Print Assumptions C04_sid_full.
+
+(* id space full, code as found: the PADR is answered with session-id 0 *)
+Theorem C04_sid_full_refuted : forall e s t p tg, 0 < next s < 65536 ->
+  (forall j, 0 < j < 65536 -> by_sid s !! j <> None) ->
+  parse_tags p = Ok tg -> validate (e_H e) (e_ttl e) (e_now_ns e) (t_cookie tg) t = true -> e_grp e t = true ->
+  exists s', step Defective e s (PADR t p) = Some (s', OPads 0 (ctr s)) /\
+    by_sid s' !! 0 = Some {| s_uid := ctr s; s_sid := 0; s_tup := t |}.
+Proof. exact padr_full_defective. Qed.
+Print Assumptions C04_sid_full_refuted.
+
+(* code as found: restore of id 0xFFFF, then a PADR: a live session with id 0 *)
+Theorem C04_sid_nonzero_refuted : exists e ops s outs x,
+  run Defective e st0 ops = Some (s, outs) /\ live s x /\ s_sid x = 0 /\ outs = [ORestored 0; OPads 0 1].
+Proof. exact sid_nonzero_refuted. Qed.
+Print Assumptions C04_sid_nonzero_refuted.
+
+(* ---------------------------------------------------------------- isolation *)
+(* a packet from tuple t (PADI, PADR, PADT, session-stage) leaves every session of another
+   tuple where it is in both indexes, creates sessions for t only, and the session it
+   terminates or reaches (if any) belongs to t *)
+Theorem C04_isolation : forall e s o s' r t, Inv s -> sender o = Some t -> step Repaired e s o = Some (s', r) ->
+  (forall k x, by_sid s !! k = Some x -> s_tup x <> t -> by_sid s' !! k = Some x) /\
+  (forall t', t' <> t -> by_tup s' !! t' = by_tup s !! t') /\
+  (forall k x, by_sid s' !! k = Some x -> by_sid s !! k = Some x \/ s_tup x = t) /\
+  (forall u, r = OTerm u \/ r = OReach u -> exists x, live s x /\ s_uid x = u /\ s_tup x = t).
+Proof. exact isolation. Qed.
+Print Assumptions C04_isolation.
+
+(* over histories: whatever other hosts send, in any order, a session stays in place *)
+Theorem C04_isolation_history : forall e t0 ops s s' outs k x,
+  Inv s -> by_sid s !! k = Some x -> s_tup x = t0 ->
+  Forall (fun o => exists t, sender o = Some t /\ t <> t0) ops ->
+  run Repaired e s ops = Some (s', outs) ->
+  by_sid s' !! k = Some x /\ by_tup s' !! t0 = by_tup s !! t0.
+Proof. exact isolation_run. Qed.
+Print Assumptions C04_isolation_history.
+
+(* code as found: host B's PADT with A's session-id terminates A's session ... *)
+Theorem C04_isolation_padt_refuted : exists e ops s outs x s' r,
+  run Repaired e st0 ops = Some (s, outs) /\ by_sid s !! 1 = Some x /\ s_tup x = tA /\ tA <> tB /\
+  step Defective e s (PADT tB 1) = Some (s', r) /\ r = OTerm (s_uid x) /\ by_sid s' !! 1 = None.
+Proof. exact isolation_padt_refuted. Qed.
+Print Assumptions C04_isolation_padt_refuted.
+
+(* ... and B's session-stage frame is fed to A's PPP state machines *)
+Theorem C04_isolation_sess_refuted : exists e ops s outs x s' r,
+  run Repaired e st0 ops = Some (s, outs) /\ by_sid s !! 1 = Some x /\ s_tup x = tA /\ tA <> tB /\
+  step Defective e s (SESS tB 1) = Some (s', r) /\ r = OReach (s_uid x).
+Proof. exact isolation_sess_refuted. Qed.
+Print Assumptions C04_isolation_sess_refuted.
+
+(* non-vacuity: a concrete history (PADI, two admitted PADRs, B's PADT and frame on A's id
+   refused, A's own frame reaches, A's own PADT terminates, a second PADT finds nothing) *)
+Example C04_history_nonvacuous :
+  match run Repaired env0 st0 [PADI tA; padr_of tA; padr_of tB; PADT tB 1; SESS tB 1; SESS tA 1; PADT tA 1; PADT tA 1] with
+  | Some (s, [OPado _; OPads 1 0; OPads 2 1; ONone; ONone; OReach 0; OTerm 0; ONone]) =>
+      by_sid s !! 1 = None /\ (exists x, by_sid s !! 2 = Some x /\ s_tup x = tB)
+  | _ => False
+  end.
+Proof. exact history_nonvacuous. Qed.
+Print Assumptions C04_history_nonvacuous.
+
+Example C04_sid_after_restore_nonvacuous :
+  match run Repaired env0 st0 [RESTORE 65535 tA; padr_of tB] with
+  | Some (_, outs) => outs = [ORestored 0; OPads 1 1] | None => False end.
+Proof. exact sid_after_restore_repaired. Qed.
+Print Assumptions C04_sid_after_restore_nonvacuous.
